@@ -551,6 +551,14 @@ where
                 })
                 .collect()
         );
+        #[cfg(feature = "verif_hooks")]
+        let all_quotient_chunks: Vec<PolynomialCoeffs<F>> =
+            if crate::verif_hooks::with_knobs(|k| k.zero_quotient_without_openings) == Some(true) {
+                let n = stark.quotient_degree_factor() * config.num_challenges;
+                vec![PolynomialCoeffs::new(vec![F::ZERO; degree]); n]
+            } else {
+                all_quotient_chunks
+            };
         // Commit to the quotient polynomials.
         let quotient_commitment = timed!(
             timing,
@@ -594,6 +602,14 @@ where
         stark.requires_ctls(),
         &num_ctl_polys,
     );
+    #[cfg(feature = "verif_hooks")]
+    let openings = {
+        let mut openings = openings;
+        if crate::verif_hooks::with_knobs(|k| k.zero_quotient_without_openings) == Some(true) {
+            openings.quotient_polys = None;
+        }
+        openings
+    };
     // Get the FRI openings and observe them.
     challenger.observe_openings(&openings.to_fri_openings());
 
